@@ -2,6 +2,7 @@
 
 PLANS = {
     "C01": {"quick": {"runs": 900, "budget_s": 80, "det": 16}, "thorough": {"runs": 60000, "budget_s": 1500, "det": 64}},
+    "C11": {"quick": {"runs": 1100, "budget_s": 80, "det": 4}, "thorough": {"runs": 12000, "budget_s": 1500, "det": 16}},
     "C02": {"quick": {"runs": 16000, "budget_s": 75, "det": 32}, "thorough": {"runs": 1200000, "budget_s": 1500, "det": 256}},
     "C04": {"quick": {"runs": 14000, "budget_s": 75, "det": 32}, "thorough": {"runs": 1000000, "budget_s": 1500, "det": 256}},
     "C17": {"quick": {"runs": 14000, "budget_s": 75, "det": 32}, "thorough": {"runs": 1000000, "budget_s": 1500, "det": 256}},
@@ -14,6 +15,13 @@ LEVELS = {
 }
 
 RULES = {
+    "C11": "one base case = swarm configuration + operation history + schedule seed, first executed fault-free (which records its "
+           "N storage operations), then re-executed once per fault point: an I/O error at storage op k -- quick: 24 stratified k "
+           "per base case with one flavour each, thorough: every k x {fails once, fails from k on, ENOSPC from k on} -- on whichever "
+           "thread issues op k (indexing worker, doc-store compressor, segment updater, merge thread, GC, reader side of the "
+           "harness), with torn writes and lazy read handles as swarm options, plus thread-spawn failures at sampled/every spawn "
+           "index. evaluations = base executions + faulted executions; non-trivial: the fault fired inside the workload; distinct: "
+           "storage event-log hash of the faulted execution.",
     "C01": "one case = swarm configuration + operation history (adds, deletes, batches, delete_all, commits, prepared commits, "
            "rollbacks, merges, writer restarts, GC; short writes and EINTR on every writer) executed under a seeded schedule; "
            "afterwards the durable image at EVERY boundary between two storage operations of the run (from any thread) is "
